@@ -12,6 +12,8 @@ def run(tier):
                        "heralds, nested) ending in Simulator.simulate(input) for every input with <= MaxPhot photons (incl. bunched, vacuum) and two "
                        "invalid inputs; TLC computes the exact permanent-based amplitude table in the ring, the real Simulator's array is compared "
                        "entry by entry. non-trivial = at least one construction call before the read; distinct = distinct call sequences", nsim=1600)
+    cc.trace_phase(chk, PID, "wiring_float_reads", 1600 if tier == "thorough" else 240, "wiring", MINE, numeric=False, reads={"simulate"})
+    cc.trace_phase(chk, PID, "components_float_reads", 1600 if tier == "thorough" else 160, "components", MINE, numeric=False, reads={"simulate"})
     return chk.finish()
 
 
